@@ -45,6 +45,7 @@ class EventLog:
         self.ops = {}         # id(op) -> op (keeps the object alive, so ids are stable)
         self.bad = None
         self.counts = {}
+        self.done_tick = {}   # id(op) -> tick of its transition to completed
 
     def register(self, op, key):
         self.shadow[id(op)] = "pending"
@@ -70,6 +71,8 @@ class EventLog:
                         self.bad = Violation("C01.start_before_parent", {
                             "op": k, "parent": self.keys.get(id(q)), "parent_state": self.shadow.get(id(q))}, self.tick)
         self.shadow[id(op)] = new
+        if new == "completed":
+            self.done_tick[id(op)] = self.tick
 
 
 _LOG = None
